@@ -123,9 +123,12 @@ RCPTS = [
     # literals that only start like the local address (192.0.2.1): not the local host
     (b'RCPT TO:<alice@[192.0.2.10]>', 'literal-prefix'), (b'RCPT TO:<alice@[192.0.2.123]>', 'literal-prefix'), (b'RCPT TO:<carol@[192.0.2.2]>', 'literal-other'),
     (b'RCPT TO:<Info@[192.0.2.1]>', 'literal-mixed-case'), (b'RCPT TO:<Some.Body@Example.Org>', 'catch-all'), (b'RCPT TO:<ALICE@[192.0.2.1]>', 'literal-upper'),
+    # a quoted local part is folded to lower case like any other (seeded change c02-m10 kept it verbatim)
+    (b'RCPT TO:<"Some Body"@Example.Org>', 'catch-all'), (b'RCPT TO:<@r.example:"Q.Pub"@Example.ORG>', 'catch-all'),
 ]
 SENDERS = [b'MAIL FROM:<s@remote.example>', b'MAIL FROM:<S.T@Remote.Example>', b'MAIL FROM:<>', b'mail from:<s@remote.example>',
-           b'MAIL FROM:<s@remote.example> BODY=8BITMIME', b'MAIL FROM:<s@remote.example> SIZE=100']
+           b'MAIL FROM:<s@remote.example> BODY=8BITMIME', b'MAIL FROM:<s@remote.example> SIZE=100',
+           b'MAIL FROM:<"John.Q.Public"@Remote.Example>']
 
 
 def addr_of(raw):
